@@ -277,7 +277,7 @@ fn segments(input: &[u8]) -> Option<Vec<(usize, usize, u8)>> {
 
 fn gen_sessions(seed: u64, tier: &str) -> Vec<Session> {
     let mut r = Rng::new(seed ^ 0xC12);
-    let n = if tier == "thorough" { 3000 } else { 260 };
+    let n = if tier == "thorough" { 3000 } else { 400 };
     let pool = c12_pool();
     let mut out = vec![];
     for _ in 0..n {
